@@ -198,6 +198,9 @@ impl<'a> Model<'a> {
         if max < self.high {
             return Err(format!("after {after}: reported peak {max} < largest usage reached since reset {}", self.high));
         }
+        if max > self.limit {
+            return Err(format!("after {after}: reported peak {max} above limit {}: an operation was accepted beyond the limit", self.limit));
+        }
         if self.a.get_max() != max {
             return Err(format!("get_max() {} != peak counter {max}", self.a.get_max()));
         }
@@ -479,6 +482,9 @@ fn threads(nthreads: usize, rounds: usize, ops_per_round: usize, seed: u64, limi
                     }
                     if used > lim {
                         problems.lock().unwrap().push(format!("round {round}: usage {used} above limit {lim}"));
+                    }
+                    if max > lim {
+                        problems.lock().unwrap().push(format!("round {round}: reported peak {max} above limit {lim}: an operation was accepted beyond the limit"));
                     }
                     let hi = own_high.lock().unwrap().iter().cloned().max().unwrap_or(0).max(total);
                     if max < hi {
